@@ -161,6 +161,16 @@ def run(ctx):
         add_run(f, [], 'rr', 'rr')
         add_run(f, [], 'stick', 'seq')
 
+    if ctx.replay:
+        det = json.load(open(ctx.replay))['detail']
+        r0 = det['run']
+        fam0 = [f for f in small + big if f['name'] == r0['family']][0]
+        if fam0 not in fams:
+            fams.append(fam0)
+        sched0 = det.get('schedule') or r0['schedule']
+        del runs[:]
+        runfam.clear()
+        add_run(fam0, sched0, 'rr', 'replay')
     ctx.log('runs to replay:', len(runs))
     recs, rc, out = ctx.run_harness('./internal/counter', 'TestVerifC04', inp={'runs': runs}, timeout=3000)
     results = {r['run']: r for r in recs if r.get('kind') == 'result'}
